@@ -592,4 +592,45 @@ def unbind_handler_registration_is_performed : Prop :=
     ∃ r' ∈ (runUOps .repaired (ops ++ [.cancelU ub k])).slots, r'.k = n ∧ r'.handle = (runUOps .repaired ops).heap.length ∧
       ((runUOps .repaired (ops ++ [.cancelU ub k])).getW r'.handle).type = .timer
 
+/-! ### relative timers: the delay of `tickit_watch_timer_after_msec`, for every number of milliseconds (round 7) -/
+
+/-- `.tv_sec = msec / 1000, .tv_usec = (msec % 1000) * 1000` is exactly `msec` milliseconds and a normalised timeval,
+    for EVERY `msec ≥ 0` - there is no bound above which the product `msec * 1000` matters, because it is never formed. -/
+theorem after_msec_delay_exact (msec : Int) (_h : 0 ≤ msec) :
+    (msec / 1000) * 1000000 + (msec % 1000) * 1000 = msec * 1000 ∧
+    0 ≤ (msec % 1000) * 1000 ∧ (msec % 1000) * 1000 < 1000000 := by omega
+
+/-- `timeradd` of two normalised timevals is their exact sum, normalised. -/
+theorem tv_add_exact (a b : TV) (ha : 0 ≤ a.usec ∧ a.usec < 1000000) (hb : 0 ≤ b.usec ∧ b.usec < 1000000) :
+    (a.add b).sec * 1000000 + (a.add b).usec = (a.sec * 1000000 + a.usec) + (b.sec * 1000000 + b.usec) ∧
+    0 ≤ (a.add b).usec ∧ (a.add b).usec < 1000000 := by
+  unfold TV.add
+  split <;> (simp only []; omega)
+
+/-- The deadline `tickit_watch_timer_after_msec` hands to `tickit_watch_timer_at_tv` is the clock reading plus exactly
+    `msec` milliseconds, for every state and every `msec ≥ 0` (36 minutes, 24 days, …): together with
+    `never_early` above (no timer is invoked while its stored deadline is in the future)
+    a relative timer never runs before `msec` milliseconds have passed on the clock. -/
+theorem after_msec_deadline_exact (st : St) (msec : Int) (flags : Nat) (slot : Int) (h : 0 ≤ msec) :
+    watchTimerAfterMsec st msec flags slot =
+      watchTimerAt (st.emit .g) ((TV.ofUs st.clockUs).add ⟨msec / 1000, (msec % 1000) * 1000⟩) flags slot ∧
+    ((TV.ofUs st.clockUs).add ⟨msec / 1000, (msec % 1000) * 1000⟩).sec * 1000000 +
+      ((TV.ofUs st.clockUs).add ⟨msec / 1000, (msec % 1000) * 1000⟩).usec = st.clockUs + msec * 1000 := by
+  refine ⟨rfl, ?_⟩
+  have hn : 0 ≤ (TV.ofUs st.clockUs).usec ∧ (TV.ofUs st.clockUs).usec < 1000000 := by
+    unfold TV.ofUs; simp only []; omega
+  have h1 := (tv_add_exact (TV.ofUs st.clockUs) ⟨msec / 1000, (msec % 1000) * 1000⟩ hn
+    ⟨(after_msec_delay_exact msec h).2.1, (after_msec_delay_exact msec h).2.2⟩).1
+  rw [h1]
+  have h2 := (after_msec_delay_exact msec h).1
+  unfold TV.ofUs
+  simp only []
+  omega
+
+/-- Non-vacuity: forty minutes (40*60*1000 ms, above INT_MAX/1000) is a deadline 2400 s after the clock reading. -/
+theorem after_msec_forty_minutes :
+    (watchTimerAfterMsec (build .repaired) 2400000 0 0).1.timers.map
+      (fun a => ((watchTimerAfterMsec (build .repaired) 2400000 0 0).1.getW a).due) =
+    [⟨(build .repaired).clockUs / 1000000 + 2400, 0⟩] := by decide +kernel
+
 end Tickit.Props.C17
